@@ -163,6 +163,8 @@ type world struct {
 	planted         map[string]bool
 	envTouched      map[string]bool
 	orphanCompacted map[string]bool // hub compaction consumed a promoted file that had no receipt
+	marked          map[string]bool // hub compaction stamped this key's receipt (job started)
+	unmarked        map[string]bool // … and the stamp was gone when the job deleted the source
 	ops             []string        // replay text of the current case
 	cur             string          // op line of the agent run in progress
 }
@@ -185,7 +187,7 @@ func (w *world) replay() string {
 func newWorld(c *vh.Ctx, root string, maxAtt int) *world {
 	w := &world{c: c, root: root, maxAtt: maxAtt, spokes: map[string]*spoke{}, content: map[string][]byte{},
 		keys: map[string]bool{}, prom: map[string]int{}, delivered: map[string]bool{}, planted: map[string]bool{},
-		envTouched: map[string]bool{}, orphanCompacted: map[string]bool{}}
+		envTouched: map[string]bool{}, orphanCompacted: map[string]bool{}, marked: map[string]bool{}, unmarked: map[string]bool{}}
 	must(os.MkdirAll(root, 0o755))
 	w.hubDir = filepath.Join(root, "hub")
 	lb, err := storage.NewLocalBackend(w.hubDir, zerolog.Nop())
@@ -290,6 +292,7 @@ func (w *world) hplant(sid, p string, b []byte, indexed bool) {
 	}
 	k := key(sid, p)
 	w.keys[k], w.planted[k], w.envTouched[k] = true, true, true
+	w.marked[k] = false
 	w.op(fmt.Sprintf("hplant %s %s %s %s", sid, p, vh.Hex(b), ix), "ok")
 }
 
@@ -299,6 +302,7 @@ func (w *world) hdel(sid, p string) {
 	w.keys[k], w.envTouched[k] = true, true
 	w.delivered[k] = false
 	w.planted[k] = false
+	w.marked[k] = false
 	w.op(fmt.Sprintf("hdel %s %s", sid, p), "ok")
 }
 
@@ -311,6 +315,9 @@ func (w *world) hcompact(sid, p string, del bool) {
 			w.orphanCompacted[key(sid, p)] = true
 		}
 	}
+	if _, _, has := w.receipt(sid, p); has {
+		w.marked[key(sid, p)] = true
+	}
 	must(w.index.MarkCompacted(ctx, sid, []string{p}))
 	d := "0"
 	if del {
@@ -319,6 +326,89 @@ func (w *world) hcompact(sid, p string, del bool) {
 	}
 	w.keys[key(sid, p)] = true
 	w.op(fmt.Sprintf("hcompact %s %s %s", sid, p, d), "ok")
+}
+
+// afterReceive: bookkeeping + monitors after a Receive call for (sp, p); before = final existed before.
+func (w *world) afterReceive(sp *spoke, p string, before bool) {
+	k := key(sp.id, p)
+	after, _ := w.hubBE.Exists(context.Background(), finalPath(sp.id, p))
+	if before || !after {
+		return
+	}
+	// the receiver promoted a file into the final path
+	w.prom[k]++
+	if w.delivered[k] {
+		class := "other"
+		switch {
+		case w.orphanCompacted[k]:
+			class = "receive-after-compaction-of-unindexed-file"
+		case w.unmarked[k]:
+			class = "redelivery-between-compaction-mark-and-source-delete"
+		}
+		w.c.Fail("hub-stored-twice:"+class,
+			"the receiver promoted "+sp.id+"/"+p+" although the hub already holds this file's content (inside a compacted output)",
+			w.replay())
+	}
+	w.delivered[k] = true
+	w.planted[k] = false
+	stored, _ := os.ReadFile(filepath.Join(w.hubDir, finalPath(sp.id, p)))
+	if !bytes.Equal(stored, sp.origin[p]) {
+		w.c.Fail("hub-content-differs:promote", "promoted bytes differ from the spoke's file "+p, w.replay())
+	}
+}
+
+// hredeliver: a delivery outside the reconcile protocol (air-gap bundle import — importer.go calls
+// Receive(offset 0, whole file) — or any duplicate delivery).
+func (w *world) hredeliver(sid, p string) {
+	sp := w.spoke(sid)
+	out := "nofile"
+	if b, err := os.ReadFile(filepath.Join(sp.dir, p)); err == nil {
+		w.keys[key(sid, p)] = true
+		ctx := context.Background()
+		before, _ := w.hubBE.Exists(ctx, finalPath(sid, p))
+		res, rerr := w.recv.Receive(ctx, sid, p, shaHex(b), int64(len(b)), 0, bytes.NewReader(b))
+		w.cur = fmt.Sprintf("hredeliver %s %s", sid, p)
+		w.afterReceive(sp, p, before)
+		w.cur = ""
+		switch {
+		case rerr != nil:
+			out = "err"
+		case res.Outcome == edgesync.OutcomeAlreadyPresent:
+			out = "already"
+		case res.Outcome == edgesync.OutcomePartial:
+			out = "partial"
+		case res.Outcome == edgesync.OutcomeChecksumMismatch:
+			out = "mismatch"
+		default:
+			out = string(res.Outcome)
+		}
+	}
+	w.c.Tag("redeliver:" + out)
+	w.op(fmt.Sprintf("hredeliver %s %s", sid, p), out)
+}
+
+// hcdel: the deferred second step of hub compaction — the source file is deleted (a retry after a
+// failed deletion); the content stays delivered (it lives in the compacted output).
+func (w *world) hcdel(sid, p string) {
+	ctx := context.Background()
+	k := key(sid, p)
+	if ex, _ := w.hubBE.Exists(ctx, finalPath(sid, p)); ex {
+		_, comp, has := w.receipt(sid, p)
+		switch {
+		case !has:
+			w.orphanCompacted[k] = true
+		case !comp && w.marked[k]:
+			// compaction marked this receipt, something cleared the mark before the source was deleted
+			w.unmarked[k] = true
+		}
+	}
+	if !w.marked[k] || w.planted[k] {
+		// not part of a compaction job: for the monitors this is a genuine removal
+		w.delivered[k], w.envTouched[k], w.planted[k] = false, true, false
+	}
+	must(w.hubBE.LocalBackend.Delete(ctx, finalPath(sid, p)))
+	w.keys[k] = true
+	w.op(fmt.Sprintf("hcdel %s %s", sid, p), "ok")
 }
 
 func (w *world) hsweep(sid, p string) {
@@ -468,26 +558,7 @@ func (r *runCtl) PutFile(ctx context.Context, hub string, e *edgesync.LedgerEntr
 	before, _ := w.hubBE.Exists(hctx, finalPath(r.sp.id, e.Path))
 	res, err := w.recv.Receive(hctx, r.sp.id, e.Path, e.SHA256, e.SizeBytes, offset, rd)
 	w.hubBE.armPath, w.hubBE.cancel = "", nil
-	after, _ := w.hubBE.Exists(context.Background(), finalPath(r.sp.id, e.Path))
-	if !before && after {
-		// the receiver promoted a file into the final path
-		w.prom[k]++
-		if w.delivered[k] {
-			class := "other"
-			if w.orphanCompacted[k] {
-				class = "receive-after-compaction-of-unindexed-file"
-			}
-			w.c.Fail("hub-stored-twice:"+class,
-				"the receiver promoted "+r.sp.id+"/"+e.Path+" although the hub already holds this file's content (inside a compacted output)",
-				w.replay())
-		}
-		w.delivered[k] = true
-		w.planted[k] = false
-		stored, _ := os.ReadFile(filepath.Join(w.hubDir, finalPath(r.sp.id, e.Path)))
-		if !bytes.Equal(stored, r.sp.origin[e.Path]) {
-			w.c.Fail("hub-content-differs:promote", "promoted bytes differ from the spoke's file "+e.Path, w.replay())
-		}
-	}
+	w.afterReceive(r.sp, e.Path, before)
 	if f.lost {
 		return nil, errLink
 	}
@@ -858,6 +929,36 @@ func mixCase(c *vh.Ctx, root string, n *int, kinds [3]byte, sameAgent bool) {
 	w.finish([]string{"s1"}, true, sameAgent)
 }
 
+// compaction window: delivered file; hub compaction marks the receipt; between the mark and the
+// deferred source deletion: a redelivery / a reconcile pass / nothing; after the deletion: redelivery,
+// passes. `lostAck` leaves the spoke row pending so its own passes take part.
+func windowCase(c *vh.Ctx, root string, n *int, lostAck bool, during, after string, sameAgent bool) {
+	*n++
+	w := newWorld(c, filepath.Join(root, fmt.Sprintf("w%d", *n)), 3)
+	defer w.close()
+	p, pt := pathFor(0)
+	w.sput("s1", p, pt, []byte{1, 2, 3, 4})
+	w.run("s1", false, 0, 0, -1, []fault{{kind: "n"}, {kind: "n", lost: lostAck}})
+	w.hcompact("s1", p, false) // step 1: receipts stamped, source deletion has not happened yet
+	step := func(what string) {
+		for _, ch := range what {
+			switch ch {
+			case 'd':
+				w.hredeliver("s1", p)
+			case 'r':
+				w.run("s1", sameAgent, 0, 0, -1, nil)
+			case 'm':
+				w.hcompact("s1", p, false) // recovery re-fires the mark
+			}
+		}
+	}
+	step(during)
+	w.hcdel("s1", p) // step 2
+	step(after)
+	w.c.Tag("window:" + during + "/" + after)
+	w.finish([]string{"s1"}, true, sameAgent)
+}
+
 func randomCase(c *vh.Ctx, root string, n int, r *vh.Rand) {
 	w := newWorld(c, filepath.Join(root, fmt.Sprintf("r%d", n)), r.Range(1, 5))
 	defer w.close()
@@ -899,7 +1000,18 @@ func randomCase(c *vh.Ctx, root string, n int, r *vh.Rand) {
 			case 2:
 				w.hdel(sid, p)
 			case 3:
-				w.hsweep(sid, p)
+				switch r.Intn(3) {
+				case 0:
+					w.hsweep(sid, p)
+				case 1:
+					if k := key(sid, p); w.marked[k] && !w.planted[k] {
+						w.hcdel(sid, p)
+					} else {
+						w.hsweep(sid, p)
+					}
+				default:
+					w.hredeliver(sid, p)
+				}
 			case 4:
 				w.hplant(sid, p, []byte{0xee, byte(r.Intn(4))}, r.Bool())
 			default:
@@ -960,6 +1072,10 @@ func replayFile(c *vh.Ctx, root, file string) {
 			w.hdel(f[1], f[2])
 		case "hcompact":
 			w.hcompact(f[1], f[2], f[3] == "1")
+		case "hcdel":
+			w.hcdel(f[1], f[2])
+		case "hredeliver":
+			w.hredeliver(f[1], f[2])
 		case "hsweep":
 			w.hsweep(f[1], f[2])
 		case "run":
@@ -1048,6 +1164,15 @@ func main() {
 		for _, b := range []byte("NFSC") {
 			for _, d := range []byte("NFSC") {
 				mixCase(c, root, &n, [3]byte{a, b, d}, n%2 == 0)
+			}
+		}
+	}
+
+	// compaction window: mark … source delete, with redeliveries / passes in between and after
+	for _, lost := range []bool{false, true} {
+		for _, during := range []string{"", "d", "r", "dr", "rd", "dd", "dm"} {
+			for _, after := range []string{"d", "r", "dr", "rd", "dd"} {
+				windowCase(c, root, &n, lost, during, after, n%2 == 0)
 			}
 		}
 	}
